@@ -125,6 +125,11 @@ def execute(stim):
                 self.ctl.send(self)
             return 'handled'
 
+    class PersistentPlain(edzed.AddonPersistence, PlainBase):
+        """a plain block with the persistence add-on (another layer between send() and the handler)"""
+        def _restore_state(self, state):
+            self.set_output(state)
+
     class SlowStopBase(edzed.AddonAsync, edzed.SBlock):
         """a block with asynchronous clean-up only"""
         def init_regular(self):
@@ -169,7 +174,9 @@ def execute(stim):
             k = conf['kind']
             name = f'b{b}'
             fault = conf.get('fault')
-            if k == 'plain':
+            if k == 'pplain':
+                blk = counting(PersistentPlain, b, conf)(name, persistent=True, sync_state=conf.get('sync', True))
+            elif k == 'plain':
                 blk = counting(PlainBase, b, conf)(name)
                 if fault == 'handler':
                     blk.hfault = b
@@ -302,8 +309,9 @@ def execute(stim):
         if src is not None:
             kw['source'] = src
         args = [shape['value']] if 'value' in shape else []
+        ret = None
         try:
-            edzed.ExtEvent(dest, op.get('etype', 'put')).send(*args, **kw)
+            ret = edzed.ExtEvent(dest, op.get('etype', 'put')).send(*args, **kw)
             outcome = 'delivered'
         except edzed.EdzedInvalidState:
             outcome = 'invalid'
@@ -318,7 +326,7 @@ def execute(stim):
         if got is not None:
             valok = got.get('value') == shape.get('value')
             restok = all(got.get(k) == v for k, v in shape.get('items', {}).items())
-        rec('ext', outcome=outcome, deliv=bool(deliv), src=codes(src) if isinstance(src, str) else [-1],
+        rec('ext', outcome=outcome, deliv=bool(deliv), retok=bool(ret == 'handled'), src=codes(src) if isinstance(src, str) else [-1],
             got=codes(gs) if isinstance(gs, str) else [-2], valok=bool(valok), restok=bool(restok),
             dest=str(op['dest']))
 
@@ -328,6 +336,8 @@ def execute(stim):
         async def main():
             circuit = edzed.get_circuit()
             st['circuit'] = circuit
+            if any(c['kind'] == 'pplain' for c in blocks):
+                circuit.set_persistent_data({})
             build(circuit)
             st['loop'], st['t0'] = loop, loop.time()
             if stim.get('pre_abort'):
@@ -335,6 +345,7 @@ def execute(stim):
             for op in stim.get('pre_ops', []):
                 send_ext(circuit, op)
             done = asyncio.Event()
+            bg = []
 
             async def actions():
                 for op in stim['actions']:
@@ -375,6 +386,12 @@ def execute(stim):
                             await circuit.shutdown()
                         except BaseException:
                             pass
+                    elif k == 'shutdown_bg':
+                        # shutdown() is running in another task; after one yield it has made its
+                        # request (this very task goes on before the simulation task is resumed)
+                        bg.append(asyncio.create_task(circuit.shutdown()))
+                        await asyncio.sleep(0)
+                        rec('stopreq')
                     elif k == 'sigterm':
                         os.kill(os.getpid(), signal.SIGTERM)
                     elif k == 'support_return':
@@ -422,6 +439,11 @@ def execute(stim):
                 rec('shutres', code=0)
             except BaseException as err:     # noqa
                 rec('shutres', code=ecode(err))
+            for t in bg:
+                try:
+                    await t
+                except BaseException:
+                    pass
             circuit.abort(Boom(950))            # a later abort() never replaces the error
             for op in stim.get('post_ops', []):
                 send_ext(circuit, op)
